@@ -350,15 +350,17 @@ func vpC12WS() string {
 func vpH_c12_ws() {
 	w1, w2 := vpC12WS(), vpC12WS()
 	v := vpStr(1, "x-z")
-	t1 := "{{" + w1 + "matrix.os" + w1 + "}}"
-	t2 := "{{" + w2 + "matrix.os" + w2 + "}}"
+	// the dimension is called `os`, or any word-like string constant of the token code (a name like any other)
+	dn := vpStrConstLike("*interpolate_matrix.go", "^[A-Za-z0-9_.-]{2,12}$", "os")
+	t1 := "{{" + w1 + "matrix." + dn + w1 + "}}"
+	t2 := "{{" + w2 + "matrix." + dn + w2 + "}}"
 	bad := "{{" + w2 + "matrix.nope" + w2 + "}}"
 	where := vpInt(0, 4)
 	step := &CommandStep{
 		Command:         "c",
 		Label:           "l",
 		Env:             map[string]string{"E": "e"},
-		Matrix:          &Matrix{Setup: MatrixSetup{"os": {v}}},
+		Matrix:          &Matrix{Setup: MatrixSetup{dn: {v}}},
 		RemainingFields: map[string]any{"r": "s", "agents": vpMapOf("queue", "q")},
 	}
 	put := func(tok string) {
@@ -382,12 +384,12 @@ func vpH_c12_ws() {
 	unknown := vpBool()
 	if unknown {
 		put(bad)
-		err := step.InterpolateMatrixPermutation(MatrixPermutation{"os": v})
+		err := step.InterpolateMatrixPermutation(MatrixPermutation{dn: v})
 		vpAssert(err != nil, "a token naming an unknown dimension fails whatever whitespace it is written with")
 		return
 	}
 	put(t2)
-	err := step.InterpolateMatrixPermutation(MatrixPermutation{"os": v})
+	err := step.InterpolateMatrixPermutation(MatrixPermutation{dn: v})
 	vpAssert(err == nil, "a valid permutation is applied without error")
 	pre := "c"
 	if second {
